@@ -63,11 +63,14 @@ CHECKS['C01'] = dict(
          '(6) the default control-flow operators (operators/control_flow.py if_stmt / while_stmt / for_stmt and their _py_ implementations, translated '
          'on every run) are proved to follow the protocol of the native statements for every callback record (control_operators_correct: '
          'test before every fetch for loops with a lowered break), tied to the real operators by logged runs (~160 per run). '
+         '(7) the call_trees pass is proved to preserve the order of evaluation of callee, arguments, unpackings and keywords and the call made '
+         '(call_trees_correct; sole_star_refuted is the known finding f(*x, k=g())); model tied to the real pass on every maximal expression of '
+         'generated programs, call semantics validated against CPython. '
          'The end-to-end claim (13 passes + loader) is validated, not proved: a differential oracle runs original vs '
          'malt.to_graph(original) on seeded generated programs x decision vectors x option sets (recursive on/off, feature sets) and '
          'compares return value, ordered external-call log, exception type, mutated arguments and module globals.',
     note=NOTE_BASE + 'Composition of all passes is validated by differential testing only. Known findings listed in '
-         'known_findings.json (for-loop target killed on the loop-exit edge; LISTS augmented subscript assignment; chained equality with the EQUALITY_OPERATORS feature; closure variables of stored lambdas).',
+         'known_findings.json (for-loop target killed on the loop-exit edge; LISTS augmented subscript assignment; chained equality with the EQUALITY_OPERATORS feature; closure variables of stored lambdas; dict(**kw) with a rebound name dict; sole starred argument unpacked before keywords).',
     technique='Coq proofs by mutual induction over big-step semantics (lowering, functionalisation, expression passes) + generated operator/pipeline tables + structural and semantic model/implementation correspondence + differential oracle against CPython (partial: composition validated)',
     design='4/C01')
 CHECKS['C16'] = dict(
